@@ -2,7 +2,7 @@
 import re
 
 from .common import fkey, where, short, arg_is_local, enclosing_loop_next, follow_value, block_line, sub_is_guarded
-from ..facts import op_place, op_const, AnchorLost
+from ..facts import op_place, op_const, AnchorLost, is_test_body
 from .. import flow
 
 PID = "C12"
@@ -481,13 +481,42 @@ def r10_ok_views_agree_with_the_entries(ctx):
             R.check(isinstance(got, Enum) and got.vname == want, "C12.R10", "%s:%s" % (nm, label), "BatchResponse::%s with %s -> %s" % (nm, label, want), "BatchResponse::%s with entries %s yields %r (expected %s): a batch with a failed or unanswered entry hands out a shorter, shifted list of plain values" % (nm, label, got, want), "%s:%d" % (b.file, b.lo))
 
 
+def r11_reply_ids_are_not_rewritten(ctx):
+    """results are slotted by the id each reply object carries: between the wire and the slotting code nothing assigns to a
+    response's `id` (re-labelling an id-less answer `by position` attributes it to whichever call happens to sit at that
+    index - another entry's answer is overwritten or a foreign object is handed out as an entry's result)."""
+    F, R = ctx.F, ctx.R
+    n = 0
+    bad = []
+    for b in F.real_bodies():
+        if is_test_body(b) or not re.search(r"^<?jsonrpsee_(http_client|core::client|client_transport)", b.path):
+            continue
+        n += 1
+        for bi, blk in enumerate(b.blocks):
+            if blk.get("cleanup") or bi not in b.reachable:
+                continue
+            for st in blk["st"]:
+                if st["s"] != "assign":
+                    continue
+                pp = st["pl"].get("p", [])
+                fs = [e for e in pp if isinstance(e, dict) and "f" in e]
+                if fs and fs[-1].get("n") == "id" and re.search(r"Response<", b.locals[st["pl"]["l"]]["ty"]):
+                    bad.append((b, st["sp"][0]))
+    for b, line in bad:
+        R.fn(b)
+        R.bad("C12.R11", "%s:assigns-response-id" % fkey(b), "%s assigns to the `id` of a response object: an answer is re-labelled before it is slotted, so it can fill (or overwrite) an entry it does not answer" % short(b.path), "%s:%d" % (b.file, line))
+    if not bad:
+        R.ok("C12.R11", "no-id-rewrite", "no assignment to a response's id in %d client bodies" % n)
+    R.floor("C12.R11", n, 200, "client bodies scanned")
+
+
 def rkeys_manager_keys_not_derived(ctx):
     """a pending batch is found through the ids of the reply at hand, never by scanning for `the oldest` / `the only` one"""
     from .common import manager_keys_not_derived
     manager_keys_not_derived(ctx, "C12.KEYS")
 
 
-RULES = [r10_ok_views_agree_with_the_entries, rkeys_manager_keys_not_derived, ratomic_ids_reserved_atomically, r1_sized_by_request, r2_slot_index, r3_range_and_zip, r4_counts, r5_allocator, r6_exact_id_number, r7_batch_key_is_whole_range, r8_frontend_keeps_positions, r9_slot_vector_travels_untouched] + BORROWED
+RULES = [r11_reply_ids_are_not_rewritten, r10_ok_views_agree_with_the_entries, rkeys_manager_keys_not_derived, ratomic_ids_reserved_atomically, r1_sized_by_request, r2_slot_index, r3_range_and_zip, r4_counts, r5_allocator, r6_exact_id_number, r7_batch_key_is_whole_range, r8_frontend_keeps_positions, r9_slot_vector_travels_untouched] + BORROWED
 
 LEVEL_TEXT = (
     "Structural necessary conditions for positional batch results, decided from the type-checked program for both "
